@@ -259,4 +259,63 @@ theorem exists_deepestF : ∀ (ts : List Tree) (d : Nat), ts ≠ [] →
       exact Or.inr hy
 end
 
+/-! ### the subtree rooted at the `i`-th node -/
+
+mutual
+theorem subAt_decomp : ∀ (t : Tree) (i : Nat) (s : Tree), subAt t i = some s →
+    ∃ pre post, flatten t = pre ++ flatten s ++ post ∧ pre.length = i
+  | .node p as, i, s, h => by
+    simp only [subAt] at h
+    split at h
+    · rename_i h0
+      simp at h; subst h; subst h0; exact ⟨[], [], by simp, rfl⟩
+    · rename_i h0
+      obtain ⟨pre, post, e, hl⟩ := subAtF_decomp as (i - 1) s h
+      exact ⟨p :: pre, post, by simp [flatten, e], by simp [hl]; omega⟩
+theorem subAtF_decomp : ∀ (ts : List Tree) (i : Nat) (s : Tree), subAtF ts i = some s →
+    ∃ pre post, flattenF ts = pre ++ flatten s ++ post ∧ pre.length = i
+  | [], _, _, h => by simp [subAtF] at h
+  | t :: ts, i, s, h => by
+    simp only [subAtF] at h
+    split at h
+    · obtain ⟨pre, post, e, hl⟩ := subAt_decomp t i s h
+      exact ⟨pre, post ++ flattenF ts, by simp [flattenF, e], hl⟩
+    · rename_i hge
+      obtain ⟨pre, post, e, hl⟩ := subAtF_decomp ts (i - t.size) s h
+      exact ⟨flatten t ++ pre, post, by simp [flattenF, e], by simp [flatten_length, hl]; omega⟩
+end
+
+mutual
+theorem subAt_wf : ∀ (t : Tree) (i : Nat) (s : Tree), wf t = true → subAt t i = some s → wf s = true
+  | .node p as, i, s, hw, h => by
+    simp only [subAt] at h
+    split at h
+    · simp at h; subst h; exact hw
+    · simp [wf] at hw; exact subAtF_wf as (i - 1) s hw.2 h
+theorem subAtF_wf : ∀ (ts : List Tree) (i : Nat) (s : Tree), wfF ts = true → subAtF ts i = some s → wf s = true
+  | [], _, _, _, h => by simp [subAtF] at h
+  | t :: ts, i, s, hw, h => by
+    simp [wfF] at hw
+    simp only [subAtF] at h
+    split at h
+    · exact subAt_wf t i s hw.1 h
+    · exact subAtF_wf ts (i - t.size) s hw.2 h
+end
+
+mutual
+theorem subAt_exists : ∀ (t : Tree) (i : Nat), i < t.size → ∃ s, subAt t i = some s
+  | .node p as, i, h => by
+    simp only [subAt]
+    split
+    · exact ⟨_, rfl⟩
+    · exact subAtF_exists as (i - 1) (by simp [Tree.size] at h; omega)
+theorem subAtF_exists : ∀ (ts : List Tree) (i : Nat), i < sizeF ts → ∃ s, subAtF ts i = some s
+  | [], _, h => by simp [sizeF] at h
+  | t :: ts, i, h => by
+    simp only [subAtF]
+    split
+    · rename_i hlt; exact subAt_exists t i hlt
+    · exact subAtF_exists ts (i - t.size) (by simp [sizeF] at h; omega)
+end
+
 end GpTree
